@@ -290,6 +290,43 @@ fn with_parsed<F: FnOnce(&mut ParsedPacket) -> String>(h: &str, f: F) -> String 
     }
 }
 
+fn res_bytes(r: Result<Result<Vec<u8>, anyhow::Error>, ()>) -> String {
+    match r {
+        Ok(Ok(v)) => format!("ok {}", hex(&v)),
+        Ok(Err(e)) => format!("err {}", err_kind(&e)),
+        Err(()) => "panic".into(),
+    }
+}
+
+fn op_uncompress(h: &str, r: &str) -> String {
+    let p = match unhex(h) { Some(p) => p, None => return "bad-hex".into() };
+    if r == "-" {
+        let first = guard(|| Compress::uncompress(&p));
+        let idem = match &first {
+            Ok(Ok(u)) => match guard(|| Compress::uncompress(u)) { Ok(Ok(u2)) => if &u2 == u { " idem=1" } else { " idem=0" }, _ => " idem=fail" },
+            _ => "",
+        };
+        return format!("{}{}", res_bytes(first), idem);
+    }
+    let ro: usize = r.parse().unwrap();
+    match guard(|| Compress::uncompress_with_previous_offset(&p, ro)) {
+        Ok(Ok((v, o))) => format!("ok {} {}", hex(&v), o),
+        Ok(Err(e)) => format!("err {}", err_kind(&e)),
+        Err(()) => "panic".into(),
+    }
+}
+
+fn op_rename(h: &str, t: &str, s: &str, sfx: &str) -> String {
+    let p = match unhex(h) { Some(p) => p, None => return "bad-hex".into() };
+    let (t, s) = (unhex(t).unwrap(), unhex(s).unwrap());
+    let sfx = sfx == "1";
+    match guard(|| DNSSector::new(p).and_then(|x| x.parse())) {
+        Ok(Ok(mut pp)) => res_bytes(guard(|| Renamer::rename_with_raw_names(&mut pp, &t, &s, sfx))),
+        Ok(Err(e)) => format!("noparse err {}", err_kind(&e)),
+        Err(()) => "noparse panic".into(),
+    }
+}
+
 pub fn run_line(line: &str) -> String {
     let w: Vec<&str> = line.split(' ').filter(|x| !x.is_empty() && !x.starts_with('#')).collect();
     if w.is_empty() {
@@ -308,6 +345,12 @@ pub fn run_line(line: &str) -> String {
             res_usize(guard(|| DNSSector::check_uncompressed_name(&p, off)))
         }
         ("cursor", _) if w.len() >= 2 => op_cursor(w[1], &w[2..]),
+        ("uncompress", 3) => op_uncompress(w[1], w[2]),
+        ("compress", 2) => {
+            let p = match unhex(w[1]) { Some(p) => p, None => return "bad-hex".into() };
+            res_bytes(guard(|| Compress::compress(&p)))
+        }
+        ("rename", 5) => op_rename(w[1], w[2], w[3], w[4]),
         ("iter", 2) => with_parsed(w[1], |pp| iter_dump(pp)),
         ("summary", 2) => with_parsed(w[1], |pp| summary_dump(pp)),
         ("hdr", 5) => op_hdr(w[1], w[2], w[3], w[4]),
